@@ -141,6 +141,12 @@ func init() {
 		},
 		"(*sync.Pool).Get": func(ex *Exec, fn *ssa.Function, a []Value) Value {
 			p := a[0].(*PtrVal)
+			// a pooled object may or may not be handed out again: both are explored
+			if items := ex.pools[p.cell]; len(items) > 0 && ex.Choose(2, "sync.Pool reuse") == 0 {
+				it := items[len(items)-1]
+				ex.pools[p.cell] = items[:len(items)-1]
+				return it
+			}
 			pool := p.cell.v.(*StructVal)
 			st := fn.Signature.Recv().Type().(*types.Pointer).Elem().Underlying().(*types.Struct)
 			for i := 0; i < st.NumFields(); i++ {
@@ -154,7 +160,13 @@ func init() {
 			}
 			return &IfaceVal{}
 		},
-		"(*sync.Pool).Put":        noop,
+		"(*sync.Pool).Put": func(ex *Exec, fn *ssa.Function, a []Value) Value {
+			p := a[0].(*PtrVal)
+			if iv, ok := a[1].(*IfaceVal); ok && iv.t != nil && len(ex.pools[p.cell]) < 2 {
+				ex.pools[p.cell] = append(ex.pools[p.cell], iv)
+			}
+			return nil
+		},
 		"(*sync.WaitGroup).Add":   noop,
 		"(*sync.WaitGroup).Done":  noop,
 		"(*sync.WaitGroup).Wait":  noop,
